@@ -32,6 +32,15 @@ Theorem C19_static_vector_refines_bounded_std : forall Cap ops,
 Proof. exact static_vector_refinement_full. Qed.
 Print Assumptions C19_static_vector_refines_bounded_std.
 
+(* nmtools::small_vector<T,DIM> in its default configuration (inline utl::static_vector / heap std::vector): after ANY
+   history its contents are the std::vector contents — growth across DIM by push_back or by one resize, shrink then
+   grow (the spill copies the live cells only), sized construction on either side of DIM, copies *)
+Theorem C19_small_vector_refines_std : forall DIM ops,
+  sm_contents (fst (smrun DIM ops)) = fst (std_run None ops) /\ sm_contents (snd (smrun DIM ops)) = snd (std_run None ops) /\
+  sm_size (fst (smrun DIM ops)) = length (fst (std_run None ops)) /\ sm_size (snd (smrun DIM ops)) = length (snd (std_run None ops)).
+Proof. exact small_vector_refinement. Qed.
+Print Assumptions C19_small_vector_refines_std.
+
 (* beyond the capacity the operation is refused and the object is unchanged *)
 Theorem C19_static_vector_refuses_beyond_capacity : forall Cap o v n,
   (Cap < ssize o + 1 -> s_push Cap o v = o) /\ (Cap < n -> s_resize Cap o n = o).
@@ -73,4 +82,11 @@ Example C19_nonvacuous_3 :
   vcontents (oa (vrun [Ctor 2])) = [Val 0%Z; Val 0%Z] /\
   vcontents (oa (vrun [Ctor 2; Resize 7])) = map Val (fst (std_run None [Ctor 2; Resize 7])) /\
   scontents (fst (srun 4 [Push 1%Z; Push 2%Z; Resize 1; Resize 2])) = [Val 1%Z; Val 0%Z].
+Proof. vm_compute. repeat split. Qed.
+(* shrink, then one resize across the inline capacity: the stale inline cells 22, 33 are not carried over *)
+Example C19_nonvacuous_4 :
+  let ops := [Push 11%Z; Push 22%Z; Push 33%Z; Resize 1; Resize 6] in
+  sm_contents (fst (smrun 4 ops)) = [11%Z; 0%Z; 0%Z; 0%Z; 0%Z; 0%Z] /\ sm_is_static (fst (smrun 4 ops)) = false /\
+  sm_is_static (fst (smrun 4 [Push 11%Z; Push 22%Z; Push 33%Z; Resize 1; Resize 4])) = true /\
+  sm_contents (fst (smrun 4 [Ctor 4; Write 3 7%Z; Push 9%Z; CopyCtor; Flip])) = [0%Z; 0%Z; 0%Z; 7%Z; 9%Z].
 Proof. vm_compute. repeat split. Qed.
